@@ -21,6 +21,9 @@
 package compile
 
 import (
+	"fmt"
+	"math"
+
 	"go.uber.org/thriftrw/ast"
 	"go.uber.org/thriftrw/wire"
 )
@@ -70,7 +73,13 @@ func compileEnum(file string, src *ast.Enum) (*EnumSpec, error) {
 				Reason: err,
 			}
 		}
-		// TODO bounds check for value
+		if value < math.MinInt32 || value > math.MaxInt32 {
+			return nil, compileError{
+				Target: src.Name + "." + astItem.Name,
+				Line:   astItem.Line,
+				Reason: fmt.Errorf("enum item value %v does not fit in 32 bits", value),
+			}
+		}
 		item := EnumItem{
 			Name:        astItem.Name,
 			Value:       int32(value),
